@@ -35,17 +35,19 @@ func vUint(x uint64) *Val { return &Val{T: 'i', I: new(big.Int).SetUint64(x)} }
 func vBytes(b []byte) *Val {
 	return &Val{T: 'b', B: append([]byte{}, b...)}
 }
-func vNone() *Val        { return &Val{T: 'o'} }
-func vSome(v *Val) *Val  { return &Val{T: 'o', Some: true, L: []*Val{v}} }
+func vNone() *Val         { return &Val{T: 'o'} }
+func vSome(v *Val) *Val   { return &Val{T: 'o', Some: true, L: []*Val{v}} }
 func vList(l []*Val) *Val { return &Val{T: 'l', L: l} }
-func vNilMsg() *Val      { return &Val{T: 'm'} }
+func vNilMsg() *Val       { return &Val{T: 'm'} }
 func vMsg(fs []*Val, u []byte) *Val {
 	return &Val{T: 'm', Some: true, L: fs, U: append([]byte{}, u...)}
 }
-func vEmb(fs []*Val, u []byte) *Val { return &Val{T: 'e', Some: true, L: fs, U: append([]byte{}, u...)} }
-func vMap(kv []*Val) *Val          { return &Val{T: 'p', L: kv} }
-func vTime(sec, nsec int64) *Val   { return &Val{T: 't', I: big.NewInt(sec), I2: big.NewInt(nsec)} }
-func vDur(ns int64) *Val           { return &Val{T: 'd', I: big.NewInt(ns)} }
+func vEmb(fs []*Val, u []byte) *Val {
+	return &Val{T: 'e', Some: true, L: fs, U: append([]byte{}, u...)}
+}
+func vMap(kv []*Val) *Val        { return &Val{T: 'p', L: kv} }
+func vTime(sec, nsec int64) *Val { return &Val{T: 't', I: big.NewInt(sec), I2: big.NewInt(nsec)} }
+func vDur(ns int64) *Val         { return &Val{T: 'd', I: big.NewInt(ns)} }
 
 func (v *Val) String() string {
 	var b strings.Builder
